@@ -96,7 +96,9 @@ func TestVerifGlobFS(t *testing.T) {
 		}
 		flush(false)
 	}
-	pool := []string{"*.c", "**/*.c", "**.c", "src/*", "src/**", "**/test*", "vendor", "vendor/**", "*", "**", "?.c", "docs/*.md", ".*", "src/tests", "src/tests/*", "*/*.c", "**/*", "a?", "test.c", "**/lib/**"}
+	pool := []string{"*.c", "**/*.c", "**.c", "src/*", "src/**", "**/test*", "vendor", "vendor/**", "*", "**", "?.c", "docs/*.md", ".*", "src/tests", "src/tests/*", "*/*.c", "**/*", "a?", "test.c", "**/lib/**",
+		// a question mark is any one character, the separator included
+		"src?a.c", "vendor?y.c", "vendor?lib?x.c", "src?tests/*.c", "src/tests?data.txt", "d?cs?readme.md", "???/?.c"}
 	for _, inc := range pool {
 		call([]string{inc}, []string{})
 		for _, exc := range pool {
